@@ -255,3 +255,58 @@ let show_init = function
     String.concat "|" [(match si.si_split_depth with None -> "-" | Some d -> hex_of_z d);
                        (match si.si_special with None -> "-" | Some (a, b) -> b01 a ^ b01 b);
                        oc si.si_code; oc si.si_data; oc si.si_library]
+
+(* ---- TVM stack values (C17): token syntax
+   n | i:<hex> | c:<idx> | s:<idx>:<skipbits>:<skiprefs> | b:<idx> | t[ v* ] | k <cont>
+   cont: q:<hex> | x | p:<hex> cont | r:<hex> cont cont | u cont cont | a cont | w cont cont cont | W cont cont cont *)
+let rec parse_cont (toks : String.t list) : vmcont * String.t list =
+  match toks with
+  | t :: r ->
+    (match colon t with
+     | ["q"; h] -> (CQuit (z_of_hex h), r)
+     | ["x"] -> (CQuitExc, r)
+     | ["p"; h] -> let (k, r1) = parse_cont r in (CPushInt (z_of_hex h, k), r1)
+     | ["r"; h] -> let (b, r1) = parse_cont r in let (a, r2) = parse_cont r1 in (CRepeat (z_of_hex h, b, a), r2)
+     | ["u"] -> let (b, r1) = parse_cont r in let (a, r2) = parse_cont r1 in (CUntil (b, a), r2)
+     | ["a"] -> let (b, r1) = parse_cont r in (CAgain b, r1)
+     | ["w"] -> let (c, r1) = parse_cont r in let (b, r2) = parse_cont r1 in let (a, r3) = parse_cont r2 in (CWhileCond (c, b, a), r3)
+     | ["W"] -> let (c, r1) = parse_cont r in let (b, r2) = parse_cont r1 in let (a, r3) = parse_cont r2 in (CWhileBody (c, b, a), r3)
+     | _ -> failwith "cont")
+  | [] -> failwith "cont"
+let rec drop k l = if k = 0 then l else (match l with [] -> [] | _ :: r -> drop (k - 1) r)
+let rec parse_vals (trees : cell array) (toks : String.t list) (stop : bool) : vmval list * String.t list =
+  match toks with
+  | [] -> ([], [])
+  | "]" :: r when stop -> ([], r)
+  | t :: r ->
+    let (v, r1) =
+      (match colon t with
+       | ["n"] -> (VmNull, r)
+       | ["i"; h] -> (VmInt (z_of_hex h), r)
+       | ["c"; i] -> (VmCellV trees.(int_of_string i), r)
+       | ["s"; i; sb; sr] ->
+         let Cell (_, bits, refs) = trees.(int_of_string i) in
+         (VmSliceV (drop (int_of_string sb) bits, drop (int_of_string sr) refs), r)
+       | ["b"; i] -> let Cell (_, bits, refs) = trees.(int_of_string i) in (VmBuilderV (bits, refs), r)
+       | ["t["] -> let (l, r2) = parse_vals trees r true in (VmTupleV l, r2)
+       | ["k"] -> let (k, r2) = parse_cont r in (VmContV k, r2)
+       | _ -> failwith ("vmval " ^ t)) in
+    let (rest, r3) = parse_vals trees r1 stop in
+    (v :: rest, r3)
+let rec show_cont = function
+  | CQuit z -> "q:" ^ hex_of_z z
+  | CQuitExc -> "x"
+  | CPushInt (v, k) -> "p:" ^ hex_of_z v ^ " " ^ show_cont k
+  | CRepeat (n, b, a) -> "r:" ^ hex_of_z n ^ " " ^ show_cont b ^ " " ^ show_cont a
+  | CUntil (b, a) -> "u " ^ show_cont b ^ " " ^ show_cont a
+  | CAgain b -> "a " ^ show_cont b
+  | CWhileCond (c, b, a) -> "w " ^ show_cont c ^ " " ^ show_cont b ^ " " ^ show_cont a
+  | CWhileBody (c, b, a) -> "W " ^ show_cont c ^ " " ^ show_cont b ^ " " ^ show_cont a
+let rec show_vm = function
+  | VmNull -> "n"
+  | VmInt z -> "i:" ^ hex_of_z z
+  | VmCellV c -> "c:" ^ cell_text c
+  | VmSliceV (bits, refs) -> "s:" ^ str_of_bits bits ^ "/" ^ String.concat "" (List.map cell_text refs)
+  | VmBuilderV (bits, refs) -> "b:" ^ str_of_bits bits ^ "/" ^ String.concat "" (List.map cell_text refs)
+  | VmTupleV l -> "t[ " ^ String.concat "" (List.map (fun v -> show_vm v ^ " ") l) ^ "]"
+  | VmContV k -> "k " ^ show_cont k
